@@ -149,6 +149,12 @@ def _counter_loop(pm, site, idx, L):
             if not ok:
                 return None
             b = astu.strip_casts(c['b'])
+            if b['k'] == 'Ref' and b.get('dk') == 'local':
+                # `const auto n = X.size(); for (i = 0; i < n; ...)`: the bound hoisted into a local that is never reassigned
+                bv = L.decl.get(b['id'])
+                if bv is not None and 'init' in bv and not L.assigns.get(b['id']) and \
+                        not any(r.get('id') == b['id'] for r, how, n in statics.written_refs(par['body'])):
+                    b = astu.strip_casts(bv['init'])
             if b['k'] == 'MCall' and b['callee']['qn'].endswith('::size'):
                 return b['obj']
             return None
